@@ -218,6 +218,35 @@ def near_uniform(verdict, tier, seed):
             le = float(smcdrv.to_np(smp.log_evidence))
             if not (math.isfinite(le) and abs(le - exp_logz) <= 16 * eps):
                 verdict.violation(f"EvidenceDef|near-uniform|{tag}", f"log_evidence {le!r} != {exp_logz!r} for weights 1 + {c['ms']}*2^-{s}", scen)
+    # exactly representable log-weights with a large common offset: log w_i = c + m_i / 8 with c = +-2^16
+    # (exact in single precision as well), so the inputs carry no rounding at all and the functionals
+    # must be accurate to the precision of the width - in particular the ESS must not depend on c
+    for ci, c in enumerate(cases):
+        if len(set(c["ms"])) < 2:
+            continue
+        n = c["n"]
+        for (ns, dt) in (("numpy", "float32"), ("torch", "float32"), ("jax", "float32"), ("numpy", "float64"), ("torch", "float64")):
+            if tier == "quick" and (ci + len(ns)) % 3:
+                continue
+            xp = smcdrv.get_xp(ns)
+            eps = 2.0 ** -23 if dt == "float32" else 2.0 ** -52
+            w = [mpm.exp(mpm.mpf(m) / 8) for m in c["ms"]]
+            exp_ess = float(sum(w) ** 2 / sum(wi ** 2 for wi in w))
+            for off in (65536.0, -65536.0, 0.0):
+                n_eval += 1
+                ll = np.array([off + m / 8.0 for m in c["ms"]], dtype=dt)
+                zeros = np.zeros(n, dtype=dt)
+                x = np.stack([np.arange(1, n + 1, dtype=float), -np.arange(1, n + 1, dtype=float)], axis=1)
+                scen = {"builder": "weights_exact_offset", "params": {"case": c, "ns": ns, "dtype": dt, "offset": off}}
+                tag = f"{ns}/{dt}/offset={off:g}"
+                try:
+                    smp = Samples(x, log_likelihood=ll, log_prior=zeros, log_q=zeros, xp=xp, dtype=dt)
+                except Exception as ex:
+                    verdict.violation(f"NeverRaises|compute_weights|{tag}|{type(ex).__name__}", f"Samples(...) raised {type(ex).__name__}: {str(ex)[:120]}", scen)
+                    continue
+                ess = float(smcdrv.to_np(smp.effective_sample_size))
+                if not (math.isfinite(ess) and abs(ess - exp_ess) <= 256 * eps * n * exp_ess):
+                    verdict.violation(f"EssDef|exact-offset|{tag}", f"ESS {ess!r} != {exp_ess!r} for log-weights {off:g} + {c['ms']}/8 (exactly representable; the ESS does not depend on the offset)", scen)
     return {"near_uniform_cases": ncases, "near_uniform_evaluations": n_eval, "tlc_states": r.distinct, "tlc_transitions": r.generated,
             "laws": ["TwoPassIsOnePass", "SpreadNonNeg", "ZeroIffUniform", "PermInvNear"]}
 
